@@ -507,33 +507,40 @@ def impl_occurrences(cells, rng):
 
 
 def impl_inline(cells, score, rng):
-    '''inline_cells with the to_inline set captured from the worker calls.
-    Returns (to_inline or None when the worker was never reached, result).'''
+    '''inline_cells(dic, score) through the public entry point, with the set of
+    inlined cells obtained from the public find_occurrences and
+    compute_inlining_scores (score < max, the selection rule of inline_cells)
+    on a copy of the table - no private helper is hooked.  Returns
+    (to_inline or None when those functions are not present, result).'''
     from t4_geom_convert.Kernel.Volume import CellInlining as CI
-    dic = to_cell_dict(cells, rng)
-    captured = []
-    real = getattr(CI, 'inline_cells_worker', None)
-    if real is None:
-        return None, ('skip', 'inline_cells_worker not present')
-
-    def spy(geometry, dic_, to_inline):
-        if not captured:
-            captured.append(sorted(to_inline))
-        return real(geometry, dic_, to_inline)
-    CI.inline_cells_worker = spy
+    find = getattr(CI, 'find_occurrences', None)
+    scores = getattr(CI, 'compute_inlining_scores', None)
+    if find is None or scores is None:
+        return None, ('skip', 'find_occurrences / compute_inlining_scores '
+                              'not present')
+    probe = to_cell_dict(cells, random_copy(rng))
     try:
-        with quiet():
-            try:
-                CI.inline_cells(dic, score)
-                out = ('ok', from_cell_dict(dic))
-            except KeyError:
-                out = ('err', 'EKey')
-            except RecursionError:
-                c13_cov.rearm()
-                out = ('err', 'EFuel')
-    finally:
-        CI.inline_cells_worker = real
-    return (captured[0] if captured else []), out
+        occ = find(probe)
+        ti = sorted(int(k) for k, sc in scores(probe, occ).items()
+                    if sc < score) if occ else []
+    except KeyError:
+        ti = []
+    dic = to_cell_dict(cells, rng)
+    with quiet():
+        try:
+            CI.inline_cells(dic, score)
+            out = ('ok', from_cell_dict(dic))
+        except KeyError:
+            out = ('err', 'EKey')
+        except RecursionError:
+            c13_cov.rearm()
+            out = ('err', 'EFuel')
+    return ti, out
+
+
+def random_copy(rng):
+    import random
+    return random.Random(rng.random())
 
 
 def impl_inline_plain(cells, score, rng):
